@@ -232,6 +232,7 @@ func Supervise(p *Prop, tier string) int {
 				// a shard that gave up on a stalled case (exit status 4, partial result) is restarted behind it
 				from := int64(0)
 				stalledFor := 0.0
+				deadlocks := 0
 				for attempt := 0; attempt <= maxRestarts && stalledFor < maxStallSeconds; attempt++ {
 					oc := runChildProc(bin, p.ID, tier, seed, s, nshards, b, work, time.Duration(wd)*time.Second, attempt, from)
 					res[s] = append(res[s], oc)
@@ -242,6 +243,12 @@ func Supervise(p *Prop, tier string) int {
 					}
 					from = sr.Stalled.Index + 1
 					stalledFor += sr.Stalled.Seconds
+					if sr.Stalled.Deadlock {
+						deadlocks++
+						if deadlocks >= 2 {
+							break // two witnesses from this shard are enough
+						}
+					}
 				}
 			}(s)
 		}
@@ -259,7 +266,11 @@ func Supervise(p *Prop, tier string) int {
 		completed := err == nil && json.Unmarshal(js, &sr) == nil && (sr.Completed || sr.Stalled != nil)
 		if completed && sr.Stalled != nil {
 			st := sr.Stalled
-			r.AddInconclusive("shard %s/%d gave up on a case that was in flight for %.0f s (class=%s key=%s) and was restarted behind it; goroutines at that time:\n%s", oc.build, oc.shard, st.Seconds, st.Class, st.KeyHex, st.Stack)
+			if st.Deadlock {
+				// recorded as a violation by the child; the shard was restarted behind the case
+			} else {
+				r.AddInconclusive("shard %s/%d gave up on a case that was in flight for %.0f s (class=%s key=%s) and was restarted behind it; goroutines at that time:\n%s", oc.build, oc.shard, st.Seconds, st.Class, st.KeyHex, st.Stack)
+			}
 			r.Stalled++
 			r.Incomplete = true
 		}
